@@ -198,4 +198,40 @@ replay corpus/C37/np_stack_negative_axis.json. -/
 theorem old_stack_rule_negative_axis_differs :
     stackShapeOld [2, 3] 2 (-1) = [2, 2, 3] ∧ npStackShape [2, 3] 2 (-1) = some [2, 3, 2] := by decide
 
+/-! ### reductions along an axis: lanes in NumPy order (repo fixes 580b2c8 `np_argmin`/`np_argmax`, 180e4a8 `np_find`) -/
+
+/-- the permutation `axes = list(range(ndim)); axes.append(axes.pop(axis))`: the given axis moved to the last position,
+the other axes kept in order -/
+def moveLastPerm (n ax : Nat) : List Nat := (List.range n).eraseIdx ax ++ [ax]
+
+/-- moving the search axis last keeps the remaining axes in order: the lanes (all axes but the last of the transposed
+array) have exactly NumPy's result shape for a reduction along `ax`, the shape with `ax` removed -/
+theorem moveLast_lanes (s : Shape) (ax : Nat) (h : ax < s.length) (h2 : s.length ≠ 1) :
+    (transposeShape s (some (moveLastPerm s.length ax))).dropLast = s.eraseIdx ax := by
+  unfold transposeShape
+  rw [if_neg h2]
+  simp only
+  apply List.ext_getElem
+  · simp [List.length_eraseIdx, h]
+  · intro i h1 h3
+    simp only [List.length_dropLast, List.length_map, List.length_range] at h1
+    rw [List.getElem_dropLast, List.getElem_map, List.getElem_range, List.getElem_eraseIdx]
+    have hp : (moveLastPerm s.length ax).getD i 0 = if i < ax then i else i + 1 := by
+      unfold moveLastPerm
+      rw [List.getD_eq_getElem?_getD, List.getElem?_append_left (by simp [List.length_eraseIdx, h]; omega)]
+      rw [List.getElem?_eq_getElem (by simp [List.length_eraseIdx, h]; omega), List.getElem_eraseIdx]
+      split <;> simp
+    rw [hp]
+    split
+    · rw [List.getD_eq_getElem?_getD, List.getElem?_eq_getElem (by omega)]; rfl
+    · rw [List.getD_eq_getElem?_getD, List.getElem?_eq_getElem (by omega)]; rfl
+
+example : (transposeShape [4, 2, 3] (some (moveLastPerm 3 0))).dropLast = [2, 3] := by decide
+
+/-- SWAPPING the axis with the last one (what `np_find` and the lane bookkeeping of `np_argmin` did before the fixes) does
+not: for shape (4,2,3) and axis 0 the lanes come out as (3,2) instead of NumPy's (2,3) -/
+theorem swap_lanes_differ :
+    swapaxesShape [4, 2, 3] 0 (-1) = .ok [3, 2, 4] ∧ ([3, 2, 4] : Shape).dropLast ≠ ([4, 2, 3] : Shape).eraseIdx 0 := by
+  decide
+
 end MpycV.C37
